@@ -569,6 +569,13 @@ def explore(unit: str, run: Callable[[Ctx], None], region=None, work=None, split
             res.errors.append(f"{unit}: contract error: {e}")
         except RecursionError as e:
             res.errors.append(f"{unit}: recursion error {e}")
+        except KeyError as e:
+            if "no such function in" in str(e):
+                # a function under contract no longer exists in this tree: undecided (the contract
+                # has to follow the code), never a violation and not a checker failure
+                res.undecided.append(f"{unit}: function under contract no longer exists: {e}")
+            else:
+                res.errors.append(f"{unit}: engine error: {e!r}\n{traceback.format_exc()}")
         except Exception as e:  # engine bug: checker failure, never a violation
             res.errors.append(f"{unit}: engine error: {e!r}\n{traceback.format_exc()}")
         if trace:
